@@ -6,19 +6,20 @@ From PM Require Import Base Lemmas Text Model Skeleton Quals DecQual Lower2 Lowe
 Import ListNotations.
 Notation cfg := src_cfg. Notation G := (string_shape src_cfg). Notation P := (ptype_shape src_cfg).
 Ltac side := vm_compute; reflexivity.
-Ltac sidecond_with rt tbl := match goal with
-  | |- rt_ok _ => exact rt
-  | |- cfg_ok _ => exact (rt_cfg _ rt)
-  | |- tbl_ascii_ok _ = true => exact (rt_asc _ rt)
-  | |- key_special_ascii _ = true => exact (rt_ksp _ rt)
-  | |- scan_ascii_ok _ = true => exact (t_sa _ tbl)
-  | |- tbl_img_fixed _ = true => exact (t_fix _ tbl)
-  | |- tbl_img_scalar _ = true => exact (t_sc _ tbl)
-  | |- tbl_no_comma _ = true => exact (t_nc _ tbl)
-  | |- dash_has_hyphen _ = true => exact (t_hy _ tbl)
-  | |- tbl_no_dash _ = true => exact (t_nd _ tbl)
-  | |- dash_not_letter _ = true => exact (t_dl _ tbl)
-  | |- valid_key _ s_checksum = true => exact (t_ck _ tbl)
+(* every side condition is a closed boolean fact about the constants read from the source; each is proved on demand, by computation,
+   and only where a theorem needs it - so a changed constant breaks exactly the obligations whose proofs mention it *)
+Ltac sc := match goal with
+  | |- cfg_ok _ => constructor; vm_compute; reflexivity
+  | |- tbl_ascii_ok _ = true => vm_compute; reflexivity
+  | |- key_special_ascii _ = true => vm_compute; reflexivity
+  | |- scan_ascii_ok _ = true => vm_compute; reflexivity
+  | |- tbl_img_fixed _ = true => vm_compute; reflexivity
+  | |- tbl_img_scalar _ = true => vm_compute; reflexivity
+  | |- tbl_no_comma _ = true => vm_compute; reflexivity
+  | |- dash_has_hyphen _ = true => vm_compute; reflexivity
+  | |- tbl_no_dash _ = true => vm_compute; reflexivity
+  | |- dash_not_letter _ = true => vm_compute; reflexivity
+  | |- valid_key _ _ = true => vm_compute; reflexivity
   | |- scan_lower_ne _ = true => reflexivity
   | |- maven_ns_segments _ = true => reflexivity
   | |- cap_saturating _ = true => reflexivity
@@ -30,3 +31,5 @@ Ltac sidecond_with rt tbl := match goal with
   | |- fold_ascii _ = true => vm_compute; reflexivity
   | |- forallb _ (type_special _) = true => vm_compute; reflexivity
   end.
+(* the round-trip record (14 facts about the escape sets and key characters), for the files whose theorems need it *)
+Ltac prove_rt := apply conds_rt_ok; vm_compute; reflexivity.
